@@ -10,7 +10,10 @@ use crate::xp::{canon, expand_ts, trunc, Xp};
 use serde_json::json;
 
 pub fn check_case(prop: &str, space: &str, choices: &[u32], c: &FCase, rep: &Report) {
-    let input = c.item.render();
+    check_input(prop, space, choices, c.item.render(), &c.tags, rep)
+}
+
+pub fn check_input(prop: &str, space: &str, choices: &[u32], input: String, ctags: &[String], rep: &Report) {
     rep.eval(1);
     rep.states.add_of(&input);
     let r = expand_ts(&input);
@@ -90,7 +93,7 @@ pub fn check_case(prop: &str, space: &str, choices: &[u32], c: &FCase, rep: &Rep
         }
     }
     for (kind, detail) in problems {
-        let mut f = fail(space, choices, &input, &c.tags, &kind, detail);
+        let mut f = fail(space, choices, &input, ctags, &kind, detail);
         f.observed = trunc(&text, 900);
         f.expected = "a sequence of impl items of the six conversion traits, one fn each with the documented signature".into();
         rep.fail(f);
@@ -107,10 +110,35 @@ pub fn run(tier: &str) -> i32 {
     rep.assume("embedded expressions, types and patterns of the corpus are well-formed by construction; `parses` is judged by syn 2 (rustc judges the B-engine properties)");
     let caps = Caps::from_env(if tier == "quick" { 120.0 } else { 1200.0 });
     corpus::for_each(tier, &caps, &rep, |space, choices, c| check_case("C17", space, choices, &c, &rep));
+    // exotic but WELL-FORMED embedded types, patterns, expressions, attribute contents and where predicates (the forms of
+    // C18's token-forms space that a real parser accepts in their syntactic category) in every hole that forwards them
+    let st = crate::explore::explore(
+        |ctx| {
+            let (src, tags) = super::c18::gen_token_forms(ctx)?;
+            if !super::c18::form_is_well_formed(&tags) {
+                return ctx.reject();
+            }
+            Some((src, tags))
+        },
+        None,
+        &caps,
+        |choices, (src, tags)| check_input("C17", "token-forms", choices, src, &tags, &rep),
+    );
+    rep.add_stats("token-forms", "full", &st);
     rep.finish()
 }
 
 pub fn replay(f: &Failure) -> i32 {
+    if f.space == "token-forms" {
+        let rep = Report::new("C17", "quick", "exploration");
+        check_input("C17", "token-forms", &f.choices, f.input.clone(), &f.tags, &rep);
+        let fs = rep.failures.lock().unwrap();
+        for x in fs.iter() {
+            println!("REPLAYED property=C17 kind={} detail={}", x.kind, x.detail);
+        }
+        println!("input:\n{}", f.input);
+        return if fs.is_empty() { 0 } else { 1 };
+    }
     let c = match corpus::replay_case(&["quick", "thorough"], &f.space, &f.choices) {
         Some(c) => c,
         None => {
